@@ -102,7 +102,15 @@ def _eval_translate(ctx: Ctx, body: ast.expr, model, _id, mr_insertion: bool):
                 return "DATETIME"
         raise KeyError
 
-    return ModelInterp(atoms, {"_id": _id}).ev(body)
+    it = ModelInterp(atoms, {"_id": _id})
+    ci = ctx.repo.cls(DIM, "_ElementIdShim")
+
+    def members(name):
+        m = ctx.repo.lookup(ci, name)
+        return m.node if m is not None and m.kind in ("lazyproperty", "property") else None
+
+    it.members = members
+    return it.ev(body)
 
 
 def cascade_array(ctx: Ctx):
@@ -129,6 +137,9 @@ def cascade_array(ctx: Ctx):
         nitems = len(model["items"])
         for label, val in (("unknown string", "nope"), ("out-of-range int", 99), ("out-of-range numeric string", "99"), ("None", None), ("negative int", -1), ("negative numeric string", "-1"), ("negative int (-n)", -nitems)):
             cases.append((f"stale reference: {label}", val, None))
+        # a reference that is no id at all (an id wrapped in a list / an object): matches nothing, ignored like any other
+        for label, val in (("a list", ["A0"]), ("an object", {"id": 1})):
+            cases.append((f"malformed reference: {label}", val, None))
         for label, spelling, want in cases:
             n += 1
             try:
@@ -197,6 +208,9 @@ def cascade_datetime(ctx: Ctx):
             continue
         cases += [(f"position id (int) of element {k}", k, v), (f"position id (str) of element {k}", str(k), v), (f"value of element {k}", v, v)]
     cases += [("stale value", "1999-01", "1999-01"), ("stale position", 42, 42), ("None", None, None)]
+    # strings str.isnumeric() accepts and int() rejects (superscripts, fractions); a reference that is no id at all
+    NORAISE = object()
+    cases += [("numeric-looking string int() rejects", "\u00b2", "\u00b2"), ("fraction character", "\u00bd", "\u00bd"), ("malformed reference: a list", [1], NORAISE), ("malformed reference: an object", {"id": 1}, NORAISE)]
     bad = []
     for label, val, want in cases:
         try:
@@ -207,6 +221,8 @@ def cascade_datetime(ctx: Ctx):
         except DTop as t:
             ctx.undecided("cascade-datetime", where, "DECTAB: " + str(t), "")
             return
+        if want is NORAISE:
+            continue
         if want is HASHABLE:
             if isinstance(got, (dict, list, set)):
                 bad.append(f"{label} ({val!r}) -> {got!r}: an unhashable 'id' (TypeError wherever ids are looked up); a reference that matches no valid element is ignored")
